@@ -931,6 +931,9 @@ void ep2_curve_set(const fp2_t a, const fp2_t b, const ep2_t g, const bn_t r, co
 	fp2_copy(ctx->ep2_a, a);
 	fp2_copy(ctx->ep2_b, b);
 
+	detect_opt(&(ctx->ep2_opt_a), ctx->ep2_a);
+	detect_opt(&(ctx->ep2_opt_b), ctx->ep2_b);
+
 	ep2_norm(ctx->ep2_g, g);
 	bn_copy(&(ctx->ep2_r), r);
 	bn_copy(&(ctx->ep2_h), h);
